@@ -216,7 +216,15 @@ def _threshold_trace(arg):
         signal.setitimer(signal.ITIMER_REAL, 0)
 
 
-def validate(ck, traces, name, expect_reject=False):
+def validate(ck, traces, name, expect_reject=False, batch=300):
+    if not expect_reject and len(traces) > batch:
+        # big sets (thorough tier) are validated in batches, one TLC run each: time and memory of a run stay bounded
+        rejected, bad = {}, None
+        for b0 in range(0, len(traces), batch):
+            r, bi = validate(ck, traces[b0:b0 + batch], "%s_%d" % (name, b0), batch=batch)
+            rejected.update({t + b0: m for t, m in r.items()})
+            bad = bad or bi
+        return rejected, bad
     wd = c.workdir("C17", name)
     f = wd / "traces.json"
     f.write_text(json.dumps(traces))
